@@ -111,7 +111,9 @@ def preprocess_clause(cl, rng, n, replay):
                 N = int(round(L * fs)) * int(rng.integers(2, 5))      # a whole number of windows: the last one is the legal window that is one sample short
             t = np.arange(N) * dt
             comp = [rng.normal(0, 1, N) + 0.01 * t * rng.uniform(-3, 3) + rng.uniform(-2, 2) for _ in range(3)]
-            deg = float(rng.choice([0., 30., 200., 400.]))
+            deg = float(rng.choice([0., 30., 200., 400., 90., 270.]))          # (with the targets 0 / 370 / None: exact quarter turns in both directions among them)
+            if j % 7 == 3 and target is not None:
+                deg = float((target + rng.choice([90., 270., 180.])) % 720)       # the turn to the target is exactly -90, -270 or -180 degrees (modulo 360)
             rec = rp.mk_record(comp[0], comp[1], comp[2], dt, degrees_from_north=deg)
             if j % 3 == 2 and det in ("linear", "constant"):
                 # a record that was already detrended as a whole, in the same manner, before it is handed to preprocess: its windows are still
